@@ -201,6 +201,24 @@ def check(ctx):
     # fixed-width string keys: missing values ('') are replaced by a maximal sentinel, so that they sort last when ascending
     from ..pattern import pstmt as _ps
     sent = [n for n in body_nodes(key.node) if isinstance(n, ast.Assign) and _ps("_V[_V.is_na()] = _C", n) is not None]
+    sent_alt = {}
+    if not sent:
+        # the mask taken first and reused: na = column.is_na(); ...; column = column.copy(); column[na] = SENTINEL
+        for n in body_nodes(key.node):
+            b_ = _ps("_V[_M] = _C", n) if isinstance(n, ast.Assign) else None
+            if b_ is None or not isinstance(b_["_V"], ast.Name) or not isinstance(b_["_M"], ast.Name):
+                continue
+            v_, m_ = b_["_V"].id, b_["_M"].id
+            mdefs = defs_reaching(key, m_, n)
+            if len(mdefs) != 1 or mdefs[0].value is None or norm(mdefs[0].value) != f"{v_}.is_na()" or mdefs[0].node is None:
+                continue
+            at_mask = {id(d.node) for d in defs_reaching(key, v_, mdefs[0].node.ast)}
+            later = [d for d in defs_reaching(key, v_, n) if id(d.node) not in at_mask]
+            if all(d.value is not None and norm(d.value) == f"{v_}.copy()" for d in later):
+                sent.append(n)
+                sent_alt[id(n)] = b_
+    _ps0 = _ps
+    _ps = lambda pat, n: (sent_alt[id(n)] if id(n) in sent_alt else _ps0(pat, n))
     from ..dtclass import analyse as _an
     from ..facts import cfg_node_of as _cn
 
